@@ -4,7 +4,7 @@
      AbstractPriorModel.replacing (mapper_from_partial_prior_arguments),
      AbstractPriorModel.copy_with_fixed_priors (transfer_classes),
      Model / Collection / TuplePrior / CompoundPrior .gaussian_prior_model_for_arguments   -> rebuild
-     AbstractPriorModel.prior_class_dict, Collection.prior_class_dict                       -> class_of
+     holder of path_for_prior(prior) (before a8a9b5b: prior_class_dict)                     -> holder_class (class_of)
      prior_tuple.name / path_for_prior(prior)[-2]                                           -> cfg_name
    The arithmetic leaves are the definitions of Gen.v (regenerated from /repo); the model is
    parametric in the value type and those leaves, and is instantiated with the binary64 leaves
@@ -126,11 +126,12 @@ Section Structure.
     | _ => None
     end.
 
-  (* REPAIR VARIANT (proposed_fixes/C12-config-one-place.diff, switched off): class and name of the configuration lookup are
-     taken from ONE place of the prior, its last path p: the class is that of the object holding the prior there
+  (* Since a8a9b5b (proposed_fixes/C12-config-one-place.diff) class and name of the configuration lookup are taken from
+     ONE place of the prior, its last path p: the class is that of the object holding the prior there
      (object_for_path(p[:-1]); the Model holding the tuple for a tuple member; ModelInstance for a Collection; float for
-     an arithmetic prior) *)
-  Definition own_place_class : bool := false.
+     an arithmetic prior).  own_place_class = false is the behaviour before the repair (class from prior_class_dict),
+     kept for the legacy witness. *)
+  Definition own_place_class : bool := true.
 
   Fixpoint holder_class (p : path) (n : node) : option string :=
     match p with
@@ -180,7 +181,7 @@ Section Structure.
        | (k, p) :: l' => if Nat.eqb k q then Some p else find l'
        end) (unique_priors V n).
 
-  (* the class of the configuration lookup: prior_class_dict[prior] today; the holder of the last place once repaired *)
+  (* the class of the configuration lookup: the holder of the last place (before a8a9b5b: prior_class_dict[prior]) *)
   Definition lookup_class (q : nat) (n : node) : option string :=
     if own_place_class
     then match last_path q n with Some p => holder_class p n | None => None end
